@@ -228,6 +228,23 @@ def sparse_list_cases(ctx, n):
         ctx.count("long_label_list")
 
 
+def out_of_range_label_cases(ctx):
+    """a requested prediction label (alone or inside a list) that is absent and does not even fit the array's dtype — 257 on
+    uint8, 65541 on uint16, 255 / 257 on int8: it selects nothing, whatever it is congruent to"""
+    for dt, absent in ((np.uint8, [257, 258, 513]), (np.uint16, [65537, 65541]), (np.int8, [255, 257])):
+        ref = np.zeros((4, 6), dt)
+        pred = np.zeros((4, 6), dt)
+        ref[0:3, 0:3] = 1
+        pred[0:3, 1:4] = 1
+        pred[3, 0:4] = 2
+        pred[0:2, 5] = 5
+        for a in absent:
+            for ps in ([a], [a, 2], [2, a]):
+                for metric in ("IOU", "DSC", "RVD"):
+                    ctx.count("requested_label_beyond_array_dtype")
+                    one_case(ctx, ref, pred, 1, ps, metric, "corpus.label-beyond-dtype")
+
+
 def history_cases(ctx, n):
     """the same array objects scored repeatedly with in-place edits in between (no hidden state allowed)"""
     rng = ctx.rng
@@ -351,6 +368,7 @@ def run(ctx):
     random_cases(ctx, ctx.scale(400, 4000))
     sparse_list_cases(ctx, ctx.scale(40, 400))
     history_cases(ctx, ctx.scale(60, 600))
+    out_of_range_label_cases(ctx)
     repeat_cases(ctx, ctx.scale(45, 450))
     rng = ctx.rng
     for i in range(ctx.scale(25, 250)):
